@@ -4,6 +4,7 @@ CONSTANTS OFFBYONE = TRUE
   NULLZERO = FALSE
   KEYGEN0 = FALSE
   DECRYPTMEMBERS = FALSE
+  TRAILERMERGE = FALSE
   Objs = {1, 2, 3}
   MaxRevs = 2
   Styles = {"one", "each", "runs"}
